@@ -522,7 +522,7 @@ where
 #[allow(clippy::too_many_arguments)]
 fn family<C, T>(ctx: &Ctx, m: &mut Monitor, h: &mut Monitor, name: &str, fields: [&str; 3], hue_index: Option<usize>)
 where
-    T: Comp + palette::stimulus::Stimulus,
+    T: Comp + palette::stimulus::Stimulus + for<'a> serde::de::IntoDeserializer<'a, serde::de::value::Error>,
     C: ArrayCast<Array = [T; 3]> + Copy + Serialize + DeserializeOwned + core::fmt::Debug,
     Alpha<C, T>: ArrayCast<Array = [T; 4]> + Copy + Serialize + DeserializeOwned + core::fmt::Debug,
 {
@@ -564,6 +564,49 @@ where
         match serde_json::from_str::<OptAlpha<C, T>>(&seq4) {
             Ok(d) if bits_of::<C, T, 3>(&d.c.color) == bits_of::<C, T, 3>(&c) && d.c.alpha.bits() == alpha.bits() => {}
             other => h.violate(&inst, "optional_alpha:sequence_with_alpha", inp(), json!(format!("{:?}", other.map(|d| d.c).map_err(|e| e.to_string()))), json!(format!("{:?}", ca)), &seq4),
+        }
+        // the same helper fed from RON and from the compact record format (formats in which an option, a unit or a number
+        // are different things): what Alpha / the bare colour serialize to must be accepted
+        {
+            h.evals(4);
+            let ok_with = |d: &OptAlpha<C, T>| bits_of::<C, T, 3>(&d.c.color) == bits_of::<C, T, 3>(&c) && d.c.alpha.bits() == alpha.bits();
+            let ok_opaque = |d: &OptAlpha<C, T>| bits_of::<C, T, 3>(&d.c.color) == bits_of::<C, T, 3>(&c) && d.c.alpha.bits() == T::opaque().bits();
+            let ron_with = format!("(c:{})", ron::to_string(&ca).unwrap());
+            match ron::from_str::<OptAlpha<C, T>>(&ron_with) {
+                Ok(d) if ok_with(&d) => {}
+                other => h.violate(&inst, "optional_alpha:ron_present_alpha_not_kept", inp(), json!(format!("{:?}", other.map(|d| d.c).map_err(|e| e.to_string()))), json!(format!("{:?}", ca)), &ron_with),
+            }
+            let ron_opaque = format!("(c:{})", ron::to_string(&c).unwrap());
+            match ron::from_str::<OptAlpha<C, T>>(&ron_opaque) {
+                Ok(d) if ok_opaque(&d) => {}
+                other => h.violate(&inst, "optional_alpha:ron_missing_alpha_is_not_full_opacity", inp(), json!(format!("{:?}", other.map(|d| d.c).map_err(|e| e.to_string()))), json!("opaque"), &ron_opaque),
+            }
+            let mut toks = vec![rec::Tok::Rec(1)];
+            toks.extend(rec::to_tokens(&ca).unwrap_or_default());
+            match rec::from_tokens::<OptAlpha<C, T>>(&toks) {
+                Ok(d) if ok_with(&d) => {}
+                other => h.violate(&inst, "optional_alpha:compact_record_present_alpha_not_kept", inp(), json!(format!("{:?}", other.map(|d| d.c).map_err(|e| e.to_string()))), json!(format!("{:?}", ca)), &format!("{:?}", toks)),
+            }
+            let mut toks = vec![rec::Tok::Rec(1)];
+            toks.extend(rec::to_tokens(&c).unwrap_or_default());
+            match rec::from_tokens::<OptAlpha<C, T>>(&toks) {
+                Ok(d) if ok_opaque(&d) => {}
+                other => h.violate(&inst, "optional_alpha:compact_record_missing_alpha_is_not_full_opacity", inp(), json!(format!("{:?}", other.map(|d| d.c).map_err(|e| e.to_string()))), json!("opaque"), &format!("{:?}", toks)),
+            }
+            // a map whose keys arrive as byte strings (formats that hand field names over as bytes)
+            let names: Vec<&[u8]> = fields.iter().map(|f| f.as_bytes()).chain(std::iter::once(&b"alpha"[..])).collect();
+            let vals: Vec<T> = comps.iter().copied().chain(std::iter::once(alpha)).collect();
+            let entries: Vec<(serde::de::value::BytesDeserializer<serde::de::value::Error>, T)> = names.iter().zip(vals.iter()).map(|(k, v)| (serde::de::value::BytesDeserializer::new(k), *v)).collect();
+            let md = serde::de::value::MapDeserializer::<_, serde::de::value::Error>::new(entries.into_iter());
+            // (serde's primitive value deserializers do not look through newtype structs, so a hue cannot be fed from them:
+            // types with a hue are left out of this one shape)
+            if hue_index.is_none() {
+                h.eval();
+                match <Alpha<C, T> as Deserialize>::deserialize(md) {
+                    Ok(d) if bits_of::<C, T, 3>(&d.color) == bits_of::<C, T, 3>(&c) && d.alpha.bits() == alpha.bits() => {}
+                    other => h.violate(&inst, "map_with_byte_string_keys", inp(), json!(format!("{:?}", other.map_err(|e| e.to_string()))), json!(format!("{:?}", ca)), ""),
+                }
+            }
         }
         // plain Deserialize of a transparent type needs the alpha
         if serde_json::from_str::<Alpha<C, T>>(&serde_json::to_string(&c).unwrap()).is_ok() {
